@@ -3,7 +3,6 @@
 E2: explicit-state BFS over operation histories against the REAL Durq/Dusq + Hold + Subery on a real LMDB
 environment in a private /dev/shm sandbox, with a Python list as reference model in lock step.
 """
-import os
 
 from .. import treeguard
 from ..enum import Acc, bfs
